@@ -16,13 +16,21 @@ type zzDLConn struct {
 	deadline int
 }
 
-func (c *zzDLConn) Read(b []byte) (int, error)         { c.reads++; return 0, io.EOF }
-func (c *zzDLConn) Write(b []byte) (int, error)        { return len(b), nil }
-func (c *zzDLConn) Close() error                       { return nil }
-func (c *zzDLConn) LocalAddr() net.Addr                { return &net.TCPAddr{IP: net.IPv4(10, 0, 0, 1), Port: 5900} }
-func (c *zzDLConn) RemoteAddr() net.Addr               { return &net.TCPAddr{IP: net.IPv4(10, 9, 9, 9), Port: 40000} }
-func (c *zzDLConn) SetDeadline(t time.Time) error      { c.rd, c.wd, c.rdSet = t, t, true; c.deadline++; return nil }
-func (c *zzDLConn) SetReadDeadline(t time.Time) error  { c.rd, c.rdSet = t, true; c.deadline++; return nil }
+func (c *zzDLConn) Read(b []byte) (int, error)  { c.reads++; return 0, io.EOF }
+func (c *zzDLConn) Write(b []byte) (int, error) { return len(b), nil }
+func (c *zzDLConn) Close() error                { return nil }
+func (c *zzDLConn) LocalAddr() net.Addr         { return &net.TCPAddr{IP: net.IPv4(10, 0, 0, 1), Port: 5900} }
+func (c *zzDLConn) RemoteAddr() net.Addr        { return &net.TCPAddr{IP: net.IPv4(10, 9, 9, 9), Port: 40000} }
+func (c *zzDLConn) SetDeadline(t time.Time) error {
+	c.rd, c.wd, c.rdSet = t, t, true
+	c.deadline++
+	return nil
+}
+func (c *zzDLConn) SetReadDeadline(t time.Time) error {
+	c.rd, c.rdSet = t, true
+	c.deadline++
+	return nil
+}
 func (c *zzDLConn) SetWriteDeadline(t time.Time) error { c.wd = t; c.deadline++; return nil }
 
 // C09/timeout-conn: the idle-timeout wrapper the server puts around every connection. A
